@@ -9,14 +9,22 @@ namespace Tromp
 /-- `~0U` -/
 def topU : Nat := 4294967295
 
-/-- what a translated function inserts into an `std::ostringstream`: string literals verbatim, the
-    run-time strings by name, an expectation by identity (`print_expectation`). -/
+/-- what a translated function inserts into an `std::ostringstream`: string literals by the key phrase they
+    contain (or `text`), the run-time strings by name, an expectation by identity (`print_expectation`). -/
 inductive Tok (α : Type)
-  | lit (s : String)
+  | key (k : String)          -- a literal containing one of the phrases that carry structure (tools/cxxvocab.py)
+  | text                      -- any other literal: wording is not modelled
   | seqName
   | matchName
   | loc
   | expectation (x : α)
+  deriving DecidableEq, Repr
+
+/-- one executed statement of a translated function in action-trace mode: the statement verbatim, or a member
+    call on the element `x` of the list being walked. -/
+inductive Act
+  | stmt (s : String)
+  | on (what : String) (x : Nat)
   deriving DecidableEq, Repr
 
 /-- a cost as the C++ holds it: `unsigned`, `~0U` for "not callable". -/
